@@ -98,9 +98,84 @@ DECODE_NOTES = [
 ]
 
 
+VT = "VersaTilesReader as versatiles_core::types::tiles_reader::TilesReaderTrait>::get_bbox_tile_stream"
+MB = "MBTilesReader as versatiles_core::types::tiles_reader::TilesReaderTrait>::get_bbox_tile_stream"
+OV = "from_overlayed::Operation as versatiles_pipeline::traits::operation::OperationTrait>::get_tile_stream"
+MG = "from_vectortiles_merged::Operation as versatiles_pipeline::traits::operation::OperationTrait>::get_tile_stream"
+# (function substring, kind, description substring, class, reason)
+STREAM_NOTES = [
+    (MB, "unwrap", "Pool::get", "io-or-corrupt", "connection pool failure (I/O)"),
+    (MB, "unwrap", "Connection::prepare", "io-or-corrupt", "constant SQL text against the MBTiles schema; fails only for a file without a tiles table"),
+    (MB, "unwrap", "Statement::query_map", "io-or-corrupt", "binding five integers to five placeholders of the constant statement; SQLite I/O otherwise"),
+    (MB, "unwrap", "TileCoord3::new", "io-or-corrupt", "fails only for zoom_level > 31 stored in the file; the WHERE clause selects zoom_level = bbox.level <= 31, so never for rows the query returns"),
+    (VT, "unwrap", "intersect_bbox", "invariant", "intersect_bbox fails only for different levels; the block was looked up with a block coordinate at bbox.level"),
+    (VT, "panic", "assert_eq", "invariant", "level equality of the box and the block found at that level"),
+    (VT, "unwrap", "get_block_tile_index", "io-or-corrupt", "reading/decoding the block's tile index fails only on I/O errors or a corrupt file"),
+    (VT, "unwrap", "get_coord3_by_index", "invariant", "index enumerates tile_index entries and get_block_tile_index ensures len == count_tiles() of the block box"),
+    (VT, "unwrap", "read_range", "io-or-corrupt", "reading a chunk of the file (I/O)"),
+    (VT, "panic", "assert", "invariant", "the coordinate passed the contains3 filter on bbox ∩ block, a subset of bbox"),
+    ("get_bbox_tile_stream::{closure#0}::Chunk::push", "panic", "panic", "invariant", "entries are sorted by offset and a chunk starts at its first entry's offset"),
+    (OV, "unwrap", "new_empty", "invariant", "bbox.level <= 31 (TileBBox invariant)"),
+    (OV, "unwrap", "include_coord3", "invariant", "coordinate reconstructed from the sub-box has the sub-box's level"),
+    (OV, "unwrap", "get_coord3_by_index", "invariant", "index enumerates the slots, sized count_tiles() of the same sub-box (R-SLOT)"),
+    (OV, "unwrap", "get_tile_index3", "invariant", "the source was asked for bbox_left, a subset of the sub-box, and sources deliver nothing outside the box they were asked for (R-CLIP holds for every stream implementation)"),
+    (OV, "index", "tiles[index]", "invariant", "index < count_tiles() == tiles.len() (R-SLOT)"),
+    (OV, "unwrap", "recompress", "io-or-corrupt", "fails only for a tile that does not decode with its source's declared compression"),
+    (MG, "unwrap", "get_tile_index3", "invariant", "the source was asked for the sub-box itself and delivers nothing outside it (R-CLIP)"),
+    (MG, "unwrap", "decompress", "io-or-corrupt", "fails only for a tile that does not decode with its source's declared compression"),
+    (MG, "index", "tiles[index]", "invariant", "index < count_tiles() == tiles.len() (R-SLOT)"),
+    (MG, "unwrap", "get_coord3_by_index", "invariant", "i enumerates the slots, sized count_tiles() of the same sub-box (R-SLOT)"),
+    (MG, "unwrap", "merge_tiles", "io-or-corrupt", "fails only for a source tile that is not a decodable vector tile"),
+    ("filter_bbox::Operation as versatiles_pipeline::traits::operation::OperationTrait>::get_tile_stream", "unwrap", "intersect_pyramid", "invariant", "intersect_pyramid intersects with the pyramid's box of the same level; fails only for different levels"),
+    ("filter_zoom::Operation as versatiles_pipeline::traits::operation::OperationTrait>::get_tile_stream", "unwrap", "intersect_pyramid", "invariant", "same level on both sides by construction"),
+    ("vectortiles_update_properties::Operation as versatiles_pipeline::traits::operation::OperationTrait>::get_tile_stream", "unwrap", "Runner::run", "io-or-corrupt", "fails only for a source tile that is not a decodable vector tile"),
+    ("TileConverter::process_stream", "unwrap", "FnConv::run", "io-or-corrupt", "fails only for a tile that does not decode with the declared source compression"),
+    ("types::blob::Blob::get_range", "index", "self.0[range]", "io-or-corrupt", "the slice lies inside the chunk that was read for exactly these tile ranges; out of range only if the index is inconsistent with the file"),
+    ("TileBBox::get_coord3_by_index", "div", "", "invariant", "dominated by ensure!(index < count_tiles()): an empty box has count 0 and returns Err before dividing by its width"),
+    ("TileBBox::into_iter_coords", "unwrap", "TileCoord3::new", "invariant", "self.level <= 31 (TileBBox invariant)"),
+    ("TileBBox::iter_coords", "unwrap", "TileCoord3::new", "invariant", "self.level <= 31 (TileBBox invariant)"),
+    ("TileBBox::iter_bbox_grid", "unwrap", "", "invariant", "grid cells are built at self.level inside [0, max] with min <= max by the loop bounds, then intersected with self at the same level"),
+    ("TileBBox::scale_down", "panic", "panic", "invariant", "callers pass the constant 256"),
+    ("TileStream::filter_map_blob_parallel", "unwrap", "expect on res", "io-or-corrupt", "JoinError only if the per-tile callback panicked, which the entries above reduce to corrupt tiles"),
+    ("TileStream::map_blob_parallel", "unwrap", "expect on e", "io-or-corrupt", "JoinError only if the per-tile callback panicked, which the entries above reduce to corrupt tiles"),
+]
+
+
+def stream_table(P):
+    from rules import c02
+    E = c02.stream_entries(P)
+    seen = P.reachable(E)
+    t19 = census.load_table("panic_sites.json")
+    out, unc, used = [], [], set()
+    for fq in sorted(seen):
+        b = P.fn(fq)
+        for s in census.collect_sites(P, b):
+            if census.auto_discharge(s) or s.key in t19:
+                continue
+            hit = None
+            for i, (fn, kind, sub, cls, reason) in enumerate(STREAM_NOTES):
+                if fn in s.fn and kind == s.kind and sub in s.desc:
+                    hit = (i, cls, reason)
+                    break
+            if hit is None:
+                unc.append(s)
+                continue
+            used.add(hit[0])
+            out.append({"key": s.key, "class": hit[1], "reason": hit[2]})
+    with open(os.path.join(HERE, "tables", "stream_sites.json"), "w") as fh:
+        json.dump({"comment": "reviewed panic-capable sites in bulk streams (C02 R-STREAM-TOTAL): none may depend on the requested box vs. the coverage", "sites": out}, fh, indent=1)
+    print("stream table: %d entries; %d notes unused; %d uncovered" % (len(out), len(STREAM_NOTES) - len(used), len(unc)))
+    for i, n in enumerate(STREAM_NOTES):
+        if i not in used:
+            print("  unused note:", n[:3])
+    for s in unc:
+        print("  uncovered:", s.key, s.loc)
+
+
 def main():
     crates, th = facts.load()
     P = ir.Program(crates, th)
+    stream_table(P)
     E = c19.entries(P)
     seen = P.reachable(E)
     out, uncovered, used_notes = [], [], set()
